@@ -9,6 +9,8 @@ from sa.prov import Prov
 from sa.layout import Layout
 from .common import dongle_classes, protocol_classes, send_sites, firmware, doc, command_methods
 from .c06 import _strip
+from sa.canon import fold_consts
+from sa.decide import values_at
 from .c18 import _facts_under
 
 TECHNIQUE = ("table agreement between Python enums/dicts and firmware headers/sources (selectors, flag "
@@ -77,6 +79,7 @@ def run(run):
     _params(run, F, PV, D, V2, fw)
     _heartbeats(run, F, PV, D, V2)
     _pubkey(run, PV, D)
+    _dongle_pubkey(run, F, PV)
     _ui_restores(run, F, PV, V2)
 
 
@@ -230,14 +233,17 @@ def _state(run, F, PV, D, V2, spec):
               message="the hash loop no longer iterates HASH_VALUES.items() as (key, selector)")
     run.rule("R4", "Answers are validated before use (dominating the store): hash - op == GST.HASH, echoed id == selector, "
              "32 bytes; difficulty - op == GST.DIFF; flags - op == GST.FLAGS and 3 bytes.")
-    need = {"key": ["result[self.OFF.OP] == self.OP.GST.HASH", "result[self.OFF.DATA] == hash_cmd",
-                    "len(result[self.OFF.DATA + 1:]) == self.HASH_SIZE"],
-            "'updating.total_difficulty'": ["result[self.OFF.OP] == self.OP.GST.DIFF"],
-            "'updating.in_progress'": ["result[self.OFF.OP] == self.OP.GST.FLAGS", "len(result[self.OFF.DATA:]) == 3"]}
+    send_d = "self._send_command(self.CMD.GET_STATE, bytes([self.OP.GST.DIFF]))"
+    send_f = "self._send_command(self.CMD.GET_STATE, bytes([self.OP.GST.FLAGS]))"
+    need = {"key": [f"{send_h}[self.OFF.OP] == self.OP.GST.HASH", f"{send_h}[self.OFF.DATA] == {hv}",
+                    f"len({send_h}[self.OFF.DATA + 1:]) == self.HASH_SIZE"],
+            "'updating.total_difficulty'": [f"{send_d}[self.OFF.OP] == self.OP.GST.DIFF"],
+            "'updating.in_progress'": [f"{send_f}[self.OFF.OP] == self.OP.GST.FLAGS", f"len({send_f}[self.OFF.DATA:]) == 3"]}
     for k, ws in need.items():
         if k not in got:
             continue
-        facts = {f.text() for f in F.local(gs, D, got[k][2])}
+        facts = {_strip(t) for t in F.expanded(gs, D, got[k][2], PV)}
+        ws = [_strip(w) for w in ws]
         for w in ws:
             run.check("R4", w in facts, f"state[{k}] stored only after `{w}`", key=f"get_blockchain_state|{k}|{w}", where=gs.loc(got[k][1]),
                       message=f"state[{k}] can be stored without the answer check `{w}`")
@@ -273,12 +279,20 @@ def _params(run, F, PV, D, V2, fw):
     rr = [n for n in A.own_nodes(fd) if isinstance(n, ast.Return)]
     pb = fd.params[0]
     want = _strip(f"HSM2FirmwareParameters(int.from_bytes({pb}[32:68], byteorder='big', signed=False), {pb}[0:32].hex(), _Network({pb}[68]))")
+    locs = set(PV.defs(fd, None)) | set(fd.params)
+
+    def folded(x):
+        try:
+            t = _strip(norm(fold_consts(P, ast.parse(x, mode="eval").body, fd, fd.cls, locals_=locs)))
+        except SyntaxError:
+            return x
+        return re.sub(r"\[:(\d+)\]", r"[0:\1]", t)
     for r in rr:
         for rn in gf.nodes_of(r):
-            got_ = {_strip(x) for x in PV.expand_consistent(fd, None, r.value, rn)}
-            run.check("R3", got_ == {want}, "parameter decoding (32 | 36 big-endian unsigned | 1)", key="from_dongle_format|expr", where=fd.loc(r),
+            got_ = {folded(x) for x in PV.expand_consistent(fd, None, r.value, rn)}
+            run.check("R3", got_ == {folded(want)}, "parameter decoding (32 | 36 big-endian unsigned | 1)", key="from_dongle_format|expr", where=fd.loc(r),
                       message=f"from_dongle_format builds {sorted(got_)[:1]}; expected `{want}`")
-            facts = {f.text() for f in F.local(fd, None, rn)}
+            facts = {folded(t) for t in F.expanded(fd, None, rn, PV)}
             run.check("R3", f"len({pb}) == 69" in facts, "exactly 69 bytes required", key="from_dongle_format|length", where=fd.loc(r),
                       message="from_dongle_format no longer requires exactly 69 bytes")
     ini = P.func("ledger.parameters.HSM2FirmwareParameters.__init__")
@@ -373,9 +387,39 @@ def _pubkey(run, PV, D):
         g = A.cfg(m, pc)
         for r in [n for n in A.own_nodes(m) if isinstance(n, ast.Return) and isinstance(n.value, ast.Tuple) and len(n.value.elts) == 2]:
             d = r.value.elts[1]
-            got = {k.value: norm(v) for k, v in zip(d.keys, d.values)}
-            run.check("R6", got == {"pubKey": "self.hsm2dongle.get_public_key(request['keyId'])"}, f"{pc.name}: pubKey wiring",
-                      key=f"{pc.name}._get_pubkey|wiring", where=m.loc(r), message=f"{pc.name}._get_pubkey reply is {got}")
+            for rn in g.nodes_of(r):
+                try:
+                    vs = {_strip(x) for x in values_at(A, m, pc, rn, d)}
+                except AnalysisError:
+                    vs = {_strip(x) for x in PV.expand_consistent(m, pc, d, rn, stop=("request",))}
+                run.check("R6", vs == {_strip("{'pubKey': self.hsm2dongle.get_public_key(request['keyId'])}")}, f"{pc.name}: pubKey wiring",
+                          key=f"{pc.name}._get_pubkey|wiring", where=m.loc(r), message=f"{pc.name}._get_pubkey reply is {sorted(vs)[:2]}")
+
+
+def _dongle_pubkey(run, F, PV):
+    """the dongle side of getPubKey and the signature parser used by every reply that carries a signature"""
+    P, A = run.P, run.A
+    from sa.decide import return_values
+    from . import c01
+    for dc in dongle_classes(run):
+        r_ = dc.lookup("get_public_key")
+        if r_ is None or r_[1] != "method" or r_[2].cls is not dc:
+            continue
+        m = r_[2]
+        kp = m.params[1]
+        vals = {_strip(x) for x in return_values(A, m, dc, PV)}
+        want = _strip(f"self._send_command(self.CMD.GET_PUBLIC_KEY, {kp}.to_binary()).hex()")
+        run.check("R6", vals == {want}, f"{dc.name}.get_public_key = hex of the answer to a fresh GET_PUBLIC_KEY exchange for this path",
+                  key=f"{dc.name}.get_public_key|expr", where=m.loc(),
+                  message=f"{dc.name}.get_public_key returns {sorted(vals)[:2]}; expected `{want}`: a stored, defaulted or re-keyed value is not what the "
+                          "device holds for the requested path")
+    run.rule("S.R5", "Signatures in replies (sign, heartbeats): HSM2DongleSignature slices r = b[4:4+b[3]] and s = b[6+rl:6+rl+b[5+rl]] after checking "
+             "the DER header, markers and lengths, and its r / s properties return the hex of exactly those slices (rules shared with C01).")
+    run.rid_prefix = "S."
+    try:
+        c01.signature_parser(run, F, PV, "R5")
+    finally:
+        run.rid_prefix = ""
 
 
 def _ui_restores(run, F, PV, V2):
